@@ -30,6 +30,8 @@ type c19Case struct {
 	Inbound bool   `json:"inbound"`
 	Mutate  bool   `json:"mutate,omitempty"` // every outgoing handler re-stamps SendingTime before looking at the bytes
 	Late    bool   `json:"late,omitempty"`   // type-specific handlers are registered only after a first message of that type has passed
+	LateAll bool   `json:"late_all,omitempty"` // ... and so are the all-types handlers
+	Reset   bool   `json:"reset,omitempty"`  // the outgoing counter is reset through the counter store before the last send
 }
 
 // failingStore wraps the memory store and logs every Save.
@@ -135,7 +137,7 @@ func c19Run(c c19Case) (string, string) {
 		})
 	}
 	for i, k := range c.Order {
-		if c.Late && k == 't' {
+		if c.Late && (k == 't' || c.LateAll) {
 			continue
 		}
 		register(i, k)
@@ -147,7 +149,7 @@ func c19Run(c c19Case) (string, string) {
 		}
 		vsched.Settle()
 		for i, k := range c.Order {
-			if k == 't' {
+			if k == 't' || c.LateAll {
 				register(i, k)
 			}
 		}
@@ -184,6 +186,11 @@ func c19Run(c c19Case) (string, string) {
 	for send := 1; send <= 3; send++ {
 		log = log[:0]
 		seen = seen[:0]
+		if c.Reset && send == 3 {
+			// the application resets the outgoing counter (CounterStorage.ResetSeqNum): numbers start again
+			// at 1 and every message must still be stored under the number it is transmitted with
+			_ = st.ResetSeqNum(fix.StorageID{Side: fix.Outgoing})
+		}
 		err := w.s.Send(mk())
 		vsched.Settle()
 		outs := w.take()
@@ -312,7 +319,9 @@ func runC19(R *vlib.Out) {
 							return
 						}
 						if failAt == 0 && len(o) > 0 {
-							if !try(c19Case{Role: role, Order: o, Refuse: refuse, MsgType: mt, Mutate: true}) ||
+							if !try(c19Case{Role: role, Order: o, Refuse: refuse, MsgType: mt, Late: true, LateAll: true}) ||
+								!try(c19Case{Role: role, Order: o, Refuse: refuse, MsgType: mt, Reset: true}) ||
+								!try(c19Case{Role: role, Order: o, Refuse: refuse, MsgType: mt, Mutate: true}) ||
 								!try(c19Case{Role: role, Order: o, Refuse: refuse, MsgType: mt, Late: true}) ||
 								!try(c19Case{Role: role, Order: o, Refuse: refuse, MsgType: mt, Late: true, Mutate: true}) {
 								return
